@@ -129,21 +129,30 @@ func runC19(cfg *config) *Report {
 						if w.Conv == "lit" || rc[0]+fpos > rc[1] {
 							continue
 						}
-						for vi, fill := range []byte{' ', '0'} {
-							b := fill
-							if e.EBCDIC {
-								b = []byte{0x40, 0xF0}[vi]
-							}
+						fills := []string{" ", "0", "9"}
+						if w.Width == 8 {
+							// date-shaped columns: a month-first date, an impossible date
+							fills = append(fills, "12312018", "20181332")
+						}
+						for _, fill := range fills {
 							m := append([]byte{}, out...)
 							same := true
 							for q := rc[0] + lo; q < rc[0]+fpos; q++ {
+								b := fill[(q-rc[0]-lo)%len(fill)]
+								if e.EBCDIC {
+									if b == ' ' {
+										b = 0x40
+									} else {
+										b += 0xC0
+									}
+								}
 								if m[q] != b {
 									same = false
 								}
 								m[q] = b
 							}
 							if !same {
-								cases = append(cases, kase{m, e, fmt.Sprintf("record %s field %s all %q", string(tag), w.Src, string(fill))})
+								cases = append(cases, kase{m, e, fmt.Sprintf("record %s field %s filled with %q", string(tag), w.Src, fill)})
 							}
 						}
 					}
